@@ -23,11 +23,12 @@ Theorem C08_honesty_checker_sound :
 Proof. exact explain_honest_b_sound. Qed.
 Print Assumptions C08_honesty_checker_sound.
 
-(* "A requirer that was abandoned during solving never appears" is FALSE of the faithful model *)
-Theorem C08_refuted_stale_requirer :
+(* (after /repo 88940d5) the former counter-example to "a requirer that was abandoned during solving never appears" - a
+   compile that succeeded with e unsolved and kept the abandoned cycle c <-> d, so that the annotation of a named c - now
+   fails honestly on e<=2.0rc1.  (Whether an abandoned requirer can still reach an annotation of a successful compile is
+   open: the honesty checker is evaluated on every explored outcome.) *)
+Theorem C08_stale_requirer_input_now_fails_honestly :
   match w_c08_stale_requirer_run 100 with
-  | COk g roots => (emitted_keys g roots, explain_sources w_c08_stale_requirer_env g "a",
-                    explain_honest_b w_c08_stale_requirer_env g roots)
-  | _ => ([], [], true) end = (["a"], ["in0.txt"; "c"], false).
-Proof. exact c08_stale_requirer_witness. Qed.
-Print Assumptions C08_refuted_stale_requirer.
+  | CNoCand _ nm sp => (nm, List.length sp) | COk _ _ => ("<ok>", 0) | CFatal _ => ("<fatal>", 0) end = ("e", 1).
+Proof. exact c08_stale_requirer_now_fails_witness. Qed.
+Print Assumptions C08_stale_requirer_input_now_fails_honestly.
